@@ -27,12 +27,16 @@ class TranslateError(Exception):
     pass
 
 
+FFMT = {'f64': 'Ruint.Float.b64', 'f32': 'Ruint.Float.b32'}      # float formats of the IEEE-754 model (`Model/Float.lean`)
+
+
 # ------------------------------------------------------------------------------------------------
 # tokenizer
 
 TOK = re.compile(r'''
     (?P<ws>\s+|//[^\n]*|/\*.*?\*/|'[A-Za-z_][A-Za-z0-9_]*(?!'))
   | (?P<str>"(?:[^"\\]|\\.)*"|'(?:[^'\\]|\\.)')
+  | (?P<flt>[0-9][0-9_]*\.[0-9][0-9_]*(?:_?f(?:32|64))?)
   | (?P<num>0x[0-9a-fA-F_]+(?:_?[ui](?:8|16|32|64|128|size))?|0b[01_]+(?:_?[ui](?:8|16|32|64|128|size))?|0o[0-7_]+|[0-9][0-9_]*(?:_?[ui](?:8|16|32|64|128|size))?)
   | (?P<id>[A-Za-z_][A-Za-z0-9_]*!?)
   | (?P<op><<=|>>=|\.\.=|::|->|=>|==|!=|<=|>=|&&|\|\||<<|>>|\+=|-=|\*=|/=|%=|&=|\|=|\^=|\.\.|[-+*/%&|^!<>=.,;:(){}\[\]#?@])
@@ -596,6 +600,11 @@ class Parser:
         kind, v = self.next()
         if kind == 'str':
             return ('str', v)
+        if kind == 'flt':
+            # an `f64` literal: its IEEE-754 binary64 bit pattern (computed here; floats are bit patterns in the translation)
+            import struct
+            body = re.sub(r'_?f(32|64)$', '', v).replace('_', '')
+            return ('lit', struct.unpack('>Q', struct.pack('>d', float(body)))[0], 'f64')
         if kind == 'num':
             m = re.match(r'^(0x[0-9a-fA-F_]*?|0b[01_]*?|0o[0-7_]*?|[0-9][0-9_]*?)_?((?:[ui](?:8|16|32|64|128|size)))?$', v)
             body, suf = m.group(1), m.group(2)
@@ -830,6 +839,11 @@ class Emitter:
         if k == 'cast':
             s, t = self.expr(e[1], env)
             tt = self.ty(e[2])
+            if tt in ('f64', 'f32'):
+                if t not in ('u64', 'u32', 'u16', 'u8', 'usize', 'u128'):
+                    raise TranslateError('cast of a %r to %s' % (t, tt))
+                # `n as f64` for an unsigned integer: the nearest float, ties to even (`Ruint.Float.ofNat`)
+                return '(Ruint.Float.ofNat %s %s)' % (FFMT[tt], s), tt
             if t == 'bool':
                 return '(%s).toNat' % s, tt
             if self.w(tt) >= self.w(t):
@@ -1157,6 +1171,12 @@ class Emitter:
             return '(List.zipWith (· %s ·) %s %s)' % (lop, sa, sb), 'uint'
         if 'uint' in (ta, tb) and getattr(self, 'uint_mode', False) != 'value' and op not in ('==', '!='):
             raise TranslateError('operator %s on Uint operands (limb mode)' % op)
+        if isinstance(ta, str) and ta in FFMT:
+            # float values are their bit patterns; the operators are the IEEE-754 model's (`Ruint.Float`)
+            fop = {'<': 'lt', '>=': 'ge', '+': 'add', '%': 'fmod', '*': 'mul'}.get(op)
+            if fop is None:
+                raise TranslateError('operator %s on %s' % (op, ta))
+            return '(Ruint.Float.%s %s %s %s)' % (fop, FFMT[ta], sa, sb), ('bool' if op in ('<', '>=') else ta)
         if ta == 'uint' and getattr(self, 'uint_mode', False) == 'value' and op not in ('==', '!=', '<', '>', '<=', '>='):
             # value mode: a Uint is its numeric value; the arithmetic operators are the wrapping ones (C01/C02)
             if op == '+':
@@ -1283,6 +1303,20 @@ class Emitter:
             k_ = args[0][1]
             return ('(if decide (%d < 2 ^ BITS) then (Except.ok %d : Except (Nat × Nat × Nat) Nat) else Except.error (0, BITS, %d %% 2 ^ BITS))'
                     % (k_, k_, k_)), ('result', 'uint', ('enum', 'ToUintErrorV', []))
+        if path == ['Self', 'try_from'] and getattr(self, 'uint_mode', False) == 'value' and len(args) == 1:
+            sk, tk = self.expr(args[0], env, None)
+            et_ = self.inner_rt[2] if (isinstance(self.inner_rt, tuple) and self.inner_rt[0] == 'result'
+                                       and isinstance(self.inner_rt[2], tuple) and self.inner_rt[2][:2] == ('enum', 'ToUintError')) \
+                else ('enum', 'ToUintErrorV', [])
+            if tk == 'f64' and getattr(self, 'recursive', None):
+                # the function calls itself (`TryFrom<f64>`): the recursion is on fuel; running out of it is `none`
+                self.uses_fuel = True
+                return '(%s fuel BITS LIMBS %s)' % (self.recursive, sk), ('option', self.inner_rt)
+            if tk in ('u64', 'usize'):
+                # `TryFrom<u64> for Uint` at the value level (C07): `Ok(k)` when k fits, else `Err(ValueTooLarge(BITS, k mod 2^BITS))`
+                return ('(let k_ := %s; if decide (k_ < 2 ^ BITS) then (Except.ok k_ : Except (Nat × Nat × Nat) Nat) '
+                        'else Except.error (0, BITS, k_ %% 2 ^ BITS))' % sk), ('result', 'uint', et_)
+            raise TranslateError('Self::try_from of a %r in value mode' % (tk,))
         if path == ['Self', 'from'] and getattr(self, 'uint_mode', False) == 'value' and len(args) == 1:
             # `Self::from(k)` panics when k does not fit the width
             sk, _ = self.expr(args[0], env, 'usize')
@@ -1361,7 +1395,8 @@ class Emitter:
         slots = self.enum_slots(et)
         fs = [self.expr(a, env, slots[i])[0] for i, a in enumerate(args)]
         for t in slots[len(args):]:
-            fs.append('[]' if t in ('uint', 'slice', 'mutslice') else 'false' if t == 'bool' else '0')
+            fs.append('0' if (t == 'uint' and getattr(self, 'uint_mode', False) == 'value')
+                      else '[]' if t in ('uint', 'slice', 'mutslice') else 'false' if t == 'bool' else '0')
         return '(' + ', '.join([str(idx)] + fs) + ')', et
 
     def call_fn(self, sig, args, env):
@@ -1391,6 +1426,9 @@ class Emitter:
         'wrapping_mul': ('((%s * %s) %% 2 ^ BITS)', 'uint'),
         'wrapping_add': ('((%s + %s) %% 2 ^ BITS)', 'uint'),
         'wrapping_sub': ('((%s + 2 ^ BITS - %s) %% 2 ^ BITS)', 'uint'),
+        'wrapping_neg': ('((2 ^ BITS - %s) %% 2 ^ BITS)', 'uint'),
+        # C05: `overflowing_shl` — value `(x · 2^k) mod 2^BITS`, flag iff set bits are shifted out
+        'overflowing_shl': ('((%s * 2 ^ %s) %% 2 ^ BITS, decide (2 ^ BITS ≤ %s * 2 ^ %s))', ('tuple', ['uint', 'bool'])),
         'overflowing_mul': ('((%s * %s) %% 2 ^ BITS, decide (2 ^ BITS ≤ %s * %s))', ('tuple', ['uint', 'bool'])),
         'overflowing_add': ('((%s + %s) %% 2 ^ BITS, decide (2 ^ BITS ≤ %s + %s))', ('tuple', ['uint', 'bool'])),
         # C03 / C02: `checked_div` is `None` for a zero divisor, `checked_mul` is `None` exactly when the product does not fit
@@ -1417,7 +1455,23 @@ class Emitter:
             e2[v] = tr[1]
             sb, tb = self.expr(args[0][2], e2, tr)
             return '(match %s with\n  | Except.ok %s => %s\n  | Except.error e_ => Except.error e_)' % (sr, lean_ident(v), sb), tb
+        r0 = recv[1] if recv[0] == 'paren' else recv
+        if name == 'exp2' and not args and r0[0] == 'cast' and isinstance(self.ty(r0[2]), str) and self.ty(r0[2]) in FFMT:
+            # `(n as f64).exp2()` for an unsigned integer n: the power of two 2^n as an `f64` (libm's `exp2` is taken to be
+            # exact on integer arguments — trusted, as in the hand model)
+            sn, _ = self.expr(r0[1], env, 'usize')
+            return '(Ruint.Float.exp2Int %s %s)' % (FFMT[self.ty(r0[2])], sn), self.ty(r0[2])
         sr, tr = self.expr(recv, env, exp)
+        if tr == 'f64':
+            if name == 'is_nan' and not args:
+                return '(Ruint.Float.isNaN Ruint.Float.b64 %s)' % sr, 'bool'
+            if name == 'is_normal' and not args:
+                return '(Ruint.Float.isNormal Ruint.Float.b64 %s)' % sr, 'bool'
+            if name == 'abs' and not args:
+                return '(Ruint.Float.abs Ruint.Float.b64 %s)' % sr, 'f64'
+            if name == 'to_bits' and not args:
+                return sr, 'u64'                      # the value *is* its bit pattern
+            raise TranslateError('f64 method %s' % name)
         if tr == 'uint' and getattr(self, 'uint_mode', False) == 'value':
             ext = getattr(self, 'externs', {})
             if name in ext:
@@ -1438,7 +1492,10 @@ class Emitter:
                     return '(' + tmpl % (aa[0], sr, aa[0]) + ')', rt
                 if name == 'saturating_shl':
                     aa = [self.expr(a, env, 'usize')[0] for a in args]
-                if name in ('overflowing_mul', 'overflowing_add', 'checked_mul', 'checked_pow', 'checked_add', 'saturating_shl'):
+                if name == 'overflowing_shl':
+                    aa = [self.expr(a, env, 'usize')[0] for a in args]
+                if name in ('overflowing_mul', 'overflowing_add', 'checked_mul', 'checked_pow', 'checked_add', 'saturating_shl',
+                            'overflowing_shl'):
                     return '(' + tmpl % (sr, aa[0], sr, aa[0]) + ')', rt
                 if name == 'bit_len':
                     return '(' + tmpl % (sr, sr) + ')', rt
@@ -1658,6 +1715,11 @@ class Emitter:
             return True
         if e[0] == 'call' and e[1] == ['Self', 'from'] and getattr(self, 'uint_mode', False) == 'value':
             return True
+        if e[0] == 'call' and e[1] == ['Self', 'try_from'] and getattr(self, 'recursive', None) and len(e[2]) == 1:
+            try:
+                return self.expr(e[2][0], dict(getattr(self, 'cur_env', {})), None)[1] == 'f64'     # the recursive call
+            except TranslateError:
+                return False
         if e[0] == 'call' and e[1][0] == 'Self' and len(e[1]) == 2 and e[1][1] in getattr(self, 'call_alias', {}):
             sig = self.fns.get(self.call_alias[e[1][1]], ())
             return len(sig) > 7 and bool(sig[7])
@@ -1948,6 +2010,7 @@ class Emitter:
         return 'let %s := %s\n  %s%s' % (t, call, after, body_rest), tb
 
     def stmts(self, stmts, env, exp, result):
+        self.cur_env = env
         if not stmts:
             if result == 'fn':
                 return self.wrap_ret('()', env), self.cur_rt
@@ -2158,6 +2221,14 @@ class Emitter:
         if k == 'let' and s[1][0] == 'pid' and s[3][0] == 'try':
             # `let x = opt?;` in a function returning `Option`: `None` is returned
             so, to = self.expr(s[3][1], env, None)
+            if (isinstance(to, tuple) and to[0] == 'result' and not (isinstance(result, tuple) and result[0] == 'loop')
+                    and isinstance(self.inner_rt, tuple) and self.inner_rt[0] == 'result'
+                    and self.lean_ty(self.inner_rt[2]) == self.lean_ty(to[2])):
+                # `let x = res?;` in a function returning `Result` with the same error type: the error is returned
+                env[s[1][1]] = to[1]
+                body, tb = self.stmts(rest, env, exp, result)
+                return 'match %s with\n  | Except.error e_ => %s\n  | Except.ok %s => (\n  %s)' % (
+                    so, self.wrap_ret('(Except.error e_)', env), lean_ident(s[1][1]), body), tb
             if not (isinstance(to, tuple) and to[0] == 'option') or (isinstance(result, tuple) and result[0] == 'loop'):
                 raise TranslateError('unsupported use of `?`')
             env[s[1][1]] = to[1]
@@ -2854,6 +2925,12 @@ class Emitter:
             params = ['(BITS LIMBS : Nat)'] + params
         if self.const_generics:
             params = ['(%s : Nat)' % ' '.join(self.const_generics)] + params
+        if getattr(self, 'recursive', None):
+            # a self-recursive function: structural recursion on the fuel (`none` when it runs out)
+            params = ['(fuel0 : Nat)'] + params
+            out += 'def %s %s : %s :=\n  match fuel0 with\n  | 0 => none\n  | fuel + 1 => (\n  %s)\n' % (
+                lean_name, ' '.join(params), self.lean_ty(rt), body)
+            return out
         if self.uses_fuel:
             params = ['(fuel : Nat)'] + params
         out += 'def %s %s : %s :=\n  %s\n' % (lean_name, ' '.join(params), self.lean_ty(rt), body)
@@ -3009,6 +3086,7 @@ def translate(items, namespace='Ruint.Gen', imports=('Ruint.Gen.Prelude',), fns=
             em.call_alias = it.get('call_alias', {})
             em.panic_externs = it.get('panic_externs', ())
             em.div_panics = it.get('div_panics', False)
+            em.recursive = it['lean'] if it.get('recursive') else None
             em.method_rewrites = it.get('method_rewrites', {})
             # field-less / word-carrying enums declared in the same file (error types)
             em.enums = {}
@@ -3401,6 +3479,24 @@ def conv2_items(repo):
     return out
 
 
+def float_value_items(repo):
+    """`TryFrom<f64> for Uint` (src/from.rs) in value mode: an `f64` is its IEEE-754 bit pattern, the float operators and
+    methods are the binary64 model's (`Ruint.Float`: `lt`, `ge`, `add`, `fmod`, `abs`, `isNaN`, `isNormal`, `exp2Int`), the
+    function's two recursive calls are recursion on fuel"""
+    return [{'file': repo + '/src/from.rs', 'fn': 'try_from', 'lean': 'val_try_from_f64', 'key': 'UintV::try_from_f64',
+             'after': 'TryFrom<f64> for Uint<BITS, LIMBS>', 'uint': 'value', 'self_ty': 'uint', 'group': 'floatv', 'recursive': True}]
+
+
+def to_float_items(repo):
+    """`From<&Uint> for f64` / `f32` (src/from.rs), limb mode over the generated `most_significant_bits`: `(bits as Self) *
+    (exponent as Self).exp2()` with the casts, the product and `exp2` of an integer as the IEEE model's `ofNat`, `mul`, `exp2Int`"""
+    f = repo + '/src/from.rs'
+    return [{'file': f, 'fn': 'from', 'lean': 'f64_from_uint', 'key': 'f64::from_uint', 'group': 'tofloat', 'uint': True,
+             'self_ty': 'f64', 'after': 'From<&Uint<BITS, LIMBS>> for f64'},
+            {'file': f, 'fn': 'from', 'lean': 'f32_from_uint', 'key': 'f32::from_uint', 'group': 'tofloat', 'uint': True,
+             'self_ty': 'f32', 'after': 'From<&Uint<BITS, LIMBS>> for f32'}]
+
+
 def macro_items(repo):
     """`pad_limbs` of the `uint!` proc macro (ruint-macro/src/lib.rs): trim / pad to the limb count and the range check"""
     return [{'file': repo + '/ruint-macro/src/lib.rs', 'fn': 'pad_limbs', 'lean': 'macro_pad_limbs', 'group': 'macro'}]
@@ -3473,7 +3569,9 @@ GROUPS = [('core', 'Words', ('Ruint.Gen.Prelude',)),
           ('value', 'WordsValue', ('Ruint.Gen.Prelude', 'Ruint.Model.Modular')),
           ('gcdv', 'WordsGcd', ('Ruint.Gen.Prelude', 'Ruint.Model.Gcd')),
           ('logv', 'WordsLog', ('Ruint.Gen.WordsValue', 'Ruint.Gen.PreludeRes')),
-          ('rootv', 'WordsRoot', ('Ruint.Gen.WordsValue', 'Ruint.Gen.PreludeRes'))]
+          ('rootv', 'WordsRoot', ('Ruint.Gen.WordsValue', 'Ruint.Gen.PreludeRes')),
+          ('floatv', 'WordsFloat', ('Ruint.Gen.WordsValue', 'Ruint.Gen.PreludeRes', 'Ruint.Model.Float')),
+          ('tofloat', 'WordsToFloat', ('Ruint.Gen.WordsUint', 'Ruint.Model.Float'))]
 
 
 def translate_all(repo):
@@ -3503,6 +3601,8 @@ def translate_all(repo):
     items += gcd_value_items(repo)
     items += log_value_items(repo)
     items += root_value_items(repo)
+    items += float_value_items(repo)
+    items += to_float_items(repo)
     try:
         items += lehmer_items(repo)
     except (OSError, IOError) as ex:
